@@ -42,9 +42,14 @@ if not p["full_statement_status"]:
     p["full_statement_status"] = "method/body clause: proved at full strength on the executor model after the fix: commit for C03-a; header clauses: function level"
 
 p = _ensure("C05", "Every request gets one complete, well-formed response mirroring the origin")
-p["modules"] += ["RrProofs.Props.C03Exec", "RrProofs.Props.C01Exec"]
+p["modules"] += ["RrProofs.Props.C03Exec", "RrProofs.Props.C01Exec", "RrProofs.Props.C05"]
 p["theorems"] += [
     T("Props.C01Exec.no_match_404", "full", "self-made answer for 'no route' is the user error 404 (well-formed) on the executor model"),
+    T("Props.C05.mirror_plain", "full", "uncached rule, origin body complete: the client view is the origin's status and complete body (none for HEAD), framed complete"),
+    T("Props.C05.broken_body_is_cut_short", "full", "an origin body with declared length that breaks off is never re-framed as complete"),
+    T("Props.C05.route_outcome", "full", "exactly one outcome for every rule pair, retry chain of any depth and fault script: a scripted origin's answer, user error 404/407/502, the bare 500, or the secrets[0] panic"),
+    T("Props.C05.self_errors_wellformed", "full", "every self-made answer on this path has an error status (>= 400) from the pinned CreateError codes, or is the bare 500"),
+    T("Props.C05.selfCodes_pinned", "full", "404, 407, 502 are among the codes pinned from usererror (Spec.userErrorCodes)"),
 ]
 p["streams"] += [S("sysu", 4000, 60000)]
 p["trivial_labels"] += ["outside-S1:flag", "rules-rejected"]
@@ -58,9 +63,13 @@ p = _ensure("C20", "Traffic copying is invisible to the client")
 p["streams"] += [S("sysu", 3000, 40000)]
 p["rule"] += _SYS_RULE + "; oracle: client response with copy rules == without (two-run non-interference), copy contact intact (C03 oracle)"
 p["trusted_base"] += _SYS_TB
-p["full_statement_status"] = "choice clause proved; copy contact equality via C03Exec (copyStage); invisibility: oracle-checked two-run comparison, theorem pending; fails when only the copy request cannot be built (finding C20-a)"
-p["modules"] += ["RrProofs.Props.C03Exec"]
-p["theorems"] += [T("Props.C03Exec.routeOnce_intact", "full", "the copy destination receives the same method and body as the proxy destination (copyStage)")]
+p["full_statement_status"] = "choice clause proved; copy contact equality via C03Exec (copyStage); invisibility proved on the executor model for every copy rule whose request can be built and whose host is not also a main/fallback host (Props.C20Exec.copy_invisible, ..._contacts); fails when only the copy request cannot be built (finding C20-a; Props.C20Exec.copy_build_error_visible is the model-level witness)"
+p["modules"] += ["RrProofs.Props.C03Exec", "RrProofs.Props.C20Exec"]
+p["theorems"] += [T("Props.C03Exec.routeOnce_intact", "full", "the copy destination receives the same method and body as the proxy destination (copyStage)"),
+    T("Props.C20Exec.copy_invisible", "partial", "CopyInvisible: for every configuration, fault script, retry count, retry chain, method and body: the routing result with the copy rule equals the result without it, provided the copy request can be built and the copy host is no main/fallback host (Separate)"),
+    T("Props.C20Exec.copy_invisible_contacts", "partial", "CopyInvisibleContacts: under Separate the contacts of all other hosts (what each origin received, in order) are the same with and without the copy rule"),
+    T("Props.C20Exec.copy_build_error_visible", "witness", "model-level witness of finding C20-a: a copy rule whose request cannot be built turns the client's 200 into 407"),
+]
 
 p = _ensure("C04", "Routing-secret firewall between internal and external destinations")
 p["streams"] += [S("sysu", 3000, 40000)]
